@@ -1,0 +1,67 @@
+//go:build verif
+
+// Contracts for the deductive verifier under /verif (gvc). This file contains no
+// declarations: it is comment-only and excluded from normal builds by the tag.
+
+package sortio
+
+// ---- C10: merge buffers ----
+
+//@ func sortio.FrameBuffer.Pos
+//@   ensures result == f.Off + f.Index
+//@   modifies nothing
+
+// Fill: the documented merge-buffer convention — EOF is reported iff the reader is exhausted or made an empty
+// read; any other error is returned unchanged; on success rows [0, Len) of the buffer's frame are fresh.
+//@ func sortio.(*FrameBuffer).Fill (ctx) (err)
+//@   requires f != nil && f.Reader != nil
+//@   may_panic
+//@   panics_if f.Index != f.Len
+//@   ensures  read-once: f.Reader.nreads == old(f.Reader.nreads) + 1
+//@   ensures  errors-are-the-readers: implies(err != nil && err != sliceio.EOF, err == f.Reader.lastErr && f.Len == f.Reader.lastN)
+//@   ensures  loaded: implies(err == nil, f.Index == 0 && f.Len == f.Reader.lastN && f.Len > 0 && f.Len <= f.Frame.len && (f.Reader.lastErr == nil || f.Reader.lastErr == sliceio.EOF))
+//@   ensures  eof-only-when-no-rows: implies(err == sliceio.EOF, f.Len == 0 && f.Reader.lastN == 0 && (f.Reader.lastErr == nil || f.Reader.lastErr == sliceio.EOF))
+//@   ensures  rows-counted: rowsSupplied == old(rowsSupplied) + f.Reader.lastN
+//@   ensures  same-buffer: f.Frame == old(f.Frame) && f.Reader == old(f.Reader) && f.Off == old(f.Off)
+//@   ensures  only-the-buffer-is-written: forall(c, implies(!isColOf(f.Frame, Ref(c)), ColMem[Ref(c)] == old(ColMem[Ref(c)])))
+//@   modifies f.Index, f.Len, SReader.nreads, SReader.lastN, SReader.lastErr, rowsSupplied, sawRowsWithEOF, ColMem
+
+//@ func sortio.(*FrameBufferHeap).Len
+//@   requires f != nil
+//@   ensures result == len(f.Buffers)
+//@   modifies nothing
+
+//@ func sortio.(*FrameBufferHeap).Swap
+//@   requires f != nil
+//@   panics_if i < 0 || i >= len(f.Buffers) || j < 0 || j >= len(f.Buffers)
+//@   ensures  f.Buffers[i] == old(f.Buffers[j]) && f.Buffers[j] == old(f.Buffers[i]) && forall(k, 0, len(f.Buffers), implies(k != i && k != j, f.Buffers[k] == old(f.Buffers[k])))
+//@   modifies f.Buffers[:]
+
+//@ func sortio.(*FrameBufferHeap).Pop
+//@   requires f != nil
+//@   panics_if len(f.Buffers) == 0
+//@   ensures  result == boxed(old(f.Buffers[len(f.Buffers)-1]), any) && len(f.Buffers) == old(len(f.Buffers)) - 1
+//@   modifies f.Buffers
+
+//@ spec func mbufStatic(b *FrameBuffer, out frame.Frame) bool = b != nil && b.Reader != nil && wf(b.Frame) && compatible(out, b.Frame) && sizesAgree(out, b.Frame) && disjointFrames(out, b.Frame)
+//@ spec func mbufDyn(b *FrameBuffer) bool = 0 <= b.Index && b.Index < b.Len && b.Len <= b.Frame.len
+//@ spec func mheapOK(h *FrameBufferHeap, out frame.Frame) bool = h != nil && forall(k, 0, len(h.Buffers), mbufStatic(h.Buffers[k], out)) && forall(k, 0, len(h.Buffers), mbufDyn(h.Buffers[k]))
+
+// mergeReader.Read: every row it emits is copied from the head row of heap element 0 (the minimum under the heap
+// order, by the assumed container/heap contract) and that buffer's cursor advances by exactly one; a buffer is
+// refilled only when exhausted; a fill error other than EOF is returned and becomes sticky; EOF only with n == 0.
+//@ func sortio.(*mergeReader).Read (ctx, out) (n, err)
+//@   requires m != nil && m.heap != nil && wf(out) && distinctCols(out) && len(out.data) >= 1 && mheapOK(m.heap, out)
+//@   flag nlarith
+//@   may_panic
+//@   ensures  sticky: implies(old(m.err) != nil, n == 0 && err == old(m.err))
+//@   ensures  bounds: 0 <= n && n <= out.len
+//@   ensures  eof-means-nothing-delivered: implies(err == sliceio.EOF, n == 0)
+//@   ensures  error-is-recorded: err == m.err
+//@   ensures  rows-outside-untouched: forall(c, 0, len(out.data), forall(k, implies(k < out.off || k >= out.off + out.len, ColMem[out.data[c].ptr][k] == old(ColMem[out.data[c].ptr][k]))))
+//@   modifies m.err, m.heap.Buffers, m.heap.Buffers[0:cap(m.heap.Buffers)], FrameBuffer.Index, FrameBuffer.Len, SReader.nreads, SReader.lastN, SReader.lastErr, rowsSupplied, sawRowsWithEOF, ColMem
+//@   loop 1 invariant i1: 0 <= n && n <= max && max == out.len && m.err == nil && old(m.err) == nil && m.heap == old(m.heap) && m.heap != nil && wf(out) && distinctCols(out)
+//@   loop 1 invariant i2: m.heap.Buffers.arr == old(m.heap.Buffers.arr) && m.heap.Buffers.off == old(m.heap.Buffers.off) && len(m.heap.Buffers) <= old(len(m.heap.Buffers)) && cap(m.heap.Buffers) == old(cap(m.heap.Buffers))
+//@   loop 1 invariant i3: forall(k, 0, len(m.heap.Buffers), mbufDyn(m.heap.Buffers[k]))
+//@   loop 1 invariant i4: forall(k, 0, len(m.heap.Buffers), exists(j, 0, old(len(m.heap.Buffers)), m.heap.Buffers[k] == old(m.heap.Buffers[j])))
+//@   loop 1 invariant forall(c, 0, len(out.data), forall(k, implies(k < out.off || k >= out.off + out.len, ColMem[out.data[c].ptr][k] == old(ColMem[out.data[c].ptr][k]))))
